@@ -37,6 +37,8 @@ pub const BOUNDARY: &[(&str, &str)] = &[
     ("i64max+1", "9223372036854775808"),
     ("2^64", "18446744073709551616"),
     ("2^200", "1606938044258990275541962092341162602522202993782792835301376"),
+    // an exact zero that is not carried as a fixnum (numerator of a float builds a bignum)
+    ("bignum-zero", "(numerator 0.0)"),
     ("half", "1/2"),
     ("-7/3", "-7/3"),
     ("i32max/2", "2147483647/2"),
